@@ -263,7 +263,7 @@ package db
 //@ // type definitions
 //@ discipline deterministic generateSetID, assignIDs allow slices.SortFunc[*], strings.Compare, json.Marshal, cid.NewSHA256CidV1, (cid.Cid).String, fmt.Sprintf tags C13
 //@ func generateSetID -> (id, err)
-//@   assert before call#1 Marshal: sameslice(callarg(SortFunc[[]*github.com/sourcenetwork/defradb/client.SchemaDescription *github.com/sourcenetwork/defradb/client.SchemaDescription], 1, 0), schemaSet)
+//@   assert before call#1 Marshal: sameslice(callarg(SortFunc, 1, 0), schemaSet)
 //@   assert before call#1 NewSHA256CidV1: sameslice(arg0, res(Marshal, 1, 0)) && res(Marshal, 1, 1) == nil
 //@   ensures err == nil ==> id == res(String, 1, 0) && callarg(String, 1, 0) == res(NewSHA256CidV1, 1, 0)
 //@   tags C13
